@@ -9,6 +9,8 @@
 //   C04 xd S <vlist> | <vlist>            extractDominated(begin, end, unwrap) : kept prefix
 //   C04 pr S <vlist> | <vlist>            Pruner(S)(begin, end, unwrap)        : kept prefix
 //   C04 cs <vlist> <vlist> a order | <vlist>     IncrementalPruning::crossSum (private; -fno-access-control)
+//   C04 pj <pomdp> <vlist w> a | O <vlist>*O      Projecter::operator()(w, a)
+//   C04 cb S <belief> a O <vlist>*O | <entry> value     crossSumBestAtBelief(b, row, a, &value)
 #include "common/verif.hpp"
 #include "common/gen.hpp"
 #include <AIToolbox/Seeder.hpp>
@@ -184,16 +186,51 @@ static void emitCS(Rng & rng) {
     Line l; l << "C04" << "cs"; putVList(l, l1); putVList(l, l2); l << a << order << "|"; putVList(l, c); l.emit();
 }
 
+// Projecter::operator()(w, a) on a random previous list, then crossSumBestAtBelief(b, row, a) on the (optionally
+// shuffled-by-extractDominated) row: the two kernels every solver assembles its entries from.
+static void emitPJ(Rng & rng) {
+    size_t S = 2 + rng.below(3), A = 1 + rng.below(3), O = 1 + rng.below(4);
+    auto pt = randomPomdp(rng, S, A, O);
+    Model model = toDense(pt);
+    size_t n = 1 + rng.below(4);
+    P::VList w;
+    for (size_t i = 0; i < n; ++i) {
+        P::VEntry e; e.values.resize(S);
+        for (size_t s = 0; s < S; ++s) e.values[s] = (double)rng.range(-16, 16) / 4.0;
+        e.action = rng.below(A); e.observations.assign(O, 0);
+        w.push_back(e);
+    }
+    size_t a = rng.below(A);
+    P::Projecter<Model> proj(model);
+    auto row = proj(w, a);
+    { Line l; l << "C04" << "pj"; putPomdp(l, pt); putVList(l, w); l << a << "|" << (size_t)O;
+      for (size_t o = 0; o < O; ++o) putVList(l, row[o]);
+      l.emit(); }
+    // shuffle / thin the projection lists the way the solvers do before the point-based cross-sum
+    bool thin = rng.coin();
+    std::vector<P::VList> rows(O);
+    for (size_t o = 0; o < O; ++o) {
+        rows[o] = row[o];
+        if (thin) rows[o].erase(AIToolbox::extractDominated(rows[o].begin(), rows[o].end(), P::unwrap), rows[o].end());
+    }
+    auto b = dyadicBelief(rng, S);
+    double value = 0;
+    auto e = P::crossSumBestAtBelief(b, rows, a, &value);
+    Line l; l << "C04" << "cb" << S; putVector(l, b); l << a << (size_t)O;
+    for (size_t o = 0; o < O; ++o) putVList(l, rows[o]);
+    l << "|"; putEntry(l, e); l << value; l.emit();
+}
+
 // ---------------------------------------------------------------- case table
 static const long kFixed = 16;
-long verif::verif_ncases(const std::string & tier) { return kFixed + (tier == "thorough" ? 1500 : 150); }
+long verif::verif_ncases(const std::string & tier) { return kFixed + (tier == "thorough" ? 9000 : 900); }
 
 void verif::verif_case(Rng & rng, long idx, const std::string & tier) {
     if (idx == 0) { runSolver(rng, 5, witnessQmdp(), 2); return; }           // known finding witness
     if (idx == 1) { runSolver(rng, 5, witnessQmdp(), 1); return; }           // QMDP with VI horizon 1 IS a one-step plan
     if (idx >= 2 && idx < 7) { runSolver(rng, (int)idx - 2, tigerTables(), 3); return; }
     if (idx == 7) { runSolver(rng, 0, tigerTables(), 4); return; }
-    if (idx >= 8 && idx < kFixed) { for (int k = 0; k < 12; ++k) { emitXD(rng); emitPR(rng); emitCS(rng); } return; }
+    if (idx >= 8 && idx < kFixed) { for (int k = 0; k < 12; ++k) { emitXD(rng); emitPR(rng); emitCS(rng); emitPJ(rng); } return; }
     long r = idx - kFixed;
     int which = (int)(r % 6);
     size_t S = 2 + rng.below(3), A = 1 + rng.below(3), O = 1 + rng.below(3);
@@ -203,7 +240,7 @@ void verif::verif_case(Rng & rng, long idx, const std::string & tier) {
     auto pt = randomPomdp(rng, S, A, O);
     double tol = (rng.coin(1, 8)) ? 0.5 : 0.0;                                // early stop on tolerance: shorter value function
     runSolver(rng, which, pt, h, tol);
-    if (r % 10 == 0) { emitXD(rng); emitPR(rng); emitCS(rng); }
+    if (r % 10 == 0) { emitXD(rng); emitPR(rng); emitCS(rng); emitPJ(rng); }
 }
 
 VERIF_MAIN
